@@ -21,7 +21,9 @@ CHECKS = {
                 "(DESIGN.md as-built section). Bounded stand-in: the real picked_protein / assign_confidence("
                 "proteins=...) on generated FASTA databases (subset and shared-peptide structures) and peptide "
                 "tables with modification and flanking notations, against an independent oracle of the statement. "
-                "Three bounded findings are listed in known_findings.json.",
+                "Two bounded findings (NaN group from unmatched decoys with a target-only FASTA; pair split when decoy group "
+                "members are ordered differently) are listed in known_findings.json; the KeyError on an all-shared "
+                "table is repaired (fix 8d71de7).",
         "design_ref": "DESIGN.md 4.C15",
         "note": "no deductive obligation; zero obligations is accepted for this property only because the evidence "
                 "labels it bounded",
@@ -189,8 +191,9 @@ CHECKS = {
                 "row number). Worker/thread independence and text-vs-Parquet equality are NOT within reach of the "
                 "contracts (joblib and the parsers are not modelled) and are decided by the bounded run: brew + "
                 "assign_confidence under sweeps of all chunk constants, workers, perturbed task durations, formats. "
-                "Two bounded findings (empty fold slice in a prediction chunk; order of exactly tied rows) are listed "
-                "in known_findings.json.",
+                "Two bounded findings (order of exactly tied rows; PEP column differing by up to 1e-3 between text "
+                "and Parquet input on small tables) are listed in known_findings.json; the empty-fold-slice finding "
+                "is repaired (fix 69febd6).",
         "design_ref": "DESIGN.md 4.C05",
         "note": "pyarrow iter_batches assumed to deliver full batches across row groups; joblib.Parallel and the "
                 "pandas/pyarrow parsers are outside the contracts",
